@@ -162,4 +162,6 @@ def run(chk, tier):
             chk.expect(s.ok, "parser-availability", short, f"{s.cursor}.{s.op}#{ordn[k]}", f"remaining() >= {s.need} proven", f"proven lower bound {s.bound}",
                        loc=f"{h['loc']['f']}:{s.line}")
     chk.floor("parser-availability", "cursor read sites in pdu::reader", n_sites, 60)
+    from . import shared
+    shared.guard_tightness(chk, fx, "guards-exact")
     chk.undecided.append("the set of all segmentations / schedules; TLS transports (feature-gated, not in the analysed configuration)")
